@@ -9,7 +9,13 @@
 #include "valloc.h"
 #include "vpeer.h"
 #include "vs.h"
+#include <arpa/inet.h>
+#include <errno.h>
+#include <fcntl.h>
+#include <netinet/in.h>
 #include <pthread.h>
+#include <sys/socket.h>
+#include <sys/un.h>
 #include <stdlib.h>
 #include <string.h>
 #include <unistd.h>
@@ -505,6 +511,146 @@ run_double(void *arg)
 	vh_fini();
 }
 
+// ---- an endpoint is closed while its connection is still being negotiated -------------------------------
+// listener side: a raw peer has connected (ipc / tcp / socket://) and says nothing, or has sent half
+// of its handshake: the pipe sits in the transport's negotiation.  dialer side: the socket's own
+// dialer has connected to a raw listener of the harness that accepts and stays silent.  Then the
+// endpoint - not the socket - is closed (every schedule within the budget), optionally while the
+// peer sends the rest of its handshake at that very moment; the close returns, the handle is dead,
+// no pipe event appears afterwards, and the socket closes with all memory returned.
+static int en_events;
+static void
+en_cb(nng_pipe p, nng_pipe_ev ev, void *arg)
+{
+	(void) p;
+	(void) ev;
+	(void) arg;
+	en_events++;
+}
+static int en_rv;
+static int en_side;
+static void *
+t_enclose(void *a)
+{
+	(void) a;
+	en_rv = en_side ? nng_dialer_close(DL) : nng_listener_close(LS);
+	return NULL;
+}
+static void
+run_epnego(void *arg)
+{
+	int tran = (int) (intptr_t) arg & 3; // 0 socket://, 1 ipc, 2 tcp
+	en_side  = ((int) (intptr_t) arg >> 2) & 1; // 0 listener, 1 dialer
+	if (tran == 2)
+		vs_tcp_grace_us = 1500;
+	vh_init(1);
+	en_events = 0;
+	VH_OK(nng_pair0_open(&S));
+	for (int ev = NNG_PIPE_EV_ADD_PRE; ev <= NNG_PIPE_EV_REM_POST; ev++)
+		VH_OK(nng_pipe_notify(S, ev, en_cb, NULL));
+	char path[160] = "", url[200];
+	int  fd = -1, lfd = -1, port = 0;
+	snprintf(path, sizeof(path), "%s/c10en-%d", vx_rundir(), (int) getpid());
+	if (!en_side) {
+		if (tran == 0) {
+			fd = vp_attach(S, &LS);
+		} else if (tran == 1) {
+			snprintf(url, sizeof(url), "ipc://%s", path);
+			VH_OK(nng_listen(S, url, &LS, 0));
+			struct sockaddr_un sa;
+			memset(&sa, 0, sizeof(sa));
+			sa.sun_family = AF_UNIX;
+			snprintf(sa.sun_path, sizeof(sa.sun_path), "%s", path);
+			fd = socket(AF_UNIX, SOCK_STREAM, 0);
+			if (connect(fd, (struct sockaddr *) &sa, sizeof(sa)) != 0)
+				vs_fail("harness:peer", "ipc connect");
+		} else {
+			VH_OK(nng_listen(S, "tcp://127.0.0.1:0", &LS, 0));
+			VH_OK(nng_listener_get_int(LS, NNG_OPT_BOUND_PORT, &port));
+			struct sockaddr_in sa;
+			memset(&sa, 0, sizeof(sa));
+			sa.sin_family      = AF_INET;
+			sa.sin_port        = htons((uint16_t) port);
+			sa.sin_addr.s_addr = htonl(INADDR_LOOPBACK);
+			fd                 = socket(AF_INET, SOCK_STREAM, 0);
+			if (connect(fd, (struct sockaddr *) &sa, sizeof(sa)) != 0)
+				vs_fail("harness:peer", "tcp connect");
+		}
+	} else {
+		// a raw listener of the harness; the socket's dialer connects in the background
+		if (tran == 1) {
+			struct sockaddr_un sa;
+			memset(&sa, 0, sizeof(sa));
+			sa.sun_family = AF_UNIX;
+			snprintf(sa.sun_path, sizeof(sa.sun_path), "%s", path);
+			lfd = socket(AF_UNIX, SOCK_STREAM, 0);
+			if (bind(lfd, (struct sockaddr *) &sa, sizeof(sa)) != 0 || listen(lfd, 4) != 0)
+				vs_fail("harness:peer", "raw ipc listener");
+			snprintf(url, sizeof(url), "ipc://%s", path);
+		} else {
+			struct sockaddr_in sa;
+			socklen_t          sl = sizeof(sa);
+			memset(&sa, 0, sizeof(sa));
+			sa.sin_family      = AF_INET;
+			sa.sin_addr.s_addr = htonl(INADDR_LOOPBACK);
+			lfd                = socket(AF_INET, SOCK_STREAM, 0);
+			if (bind(lfd, (struct sockaddr *) &sa, sizeof(sa)) != 0 || listen(lfd, 4) != 0 ||
+			    getsockname(lfd, (struct sockaddr *) &sa, &sl) != 0)
+				vs_fail("harness:peer", "raw tcp listener");
+			snprintf(url, sizeof(url), "tcp://127.0.0.1:%d", ntohs(sa.sin_port));
+		}
+		fcntl(lfd, F_SETFL, fcntl(lfd, F_GETFL) | O_NONBLOCK);
+		VH_OK(nng_dial(S, url, &DL, NNG_FLAG_NONBLOCK));
+		for (int t = 0; t < 20 && fd < 0; t++) {
+			vs_settle();
+			fd = accept(lfd, NULL, NULL);
+			if (fd < 0)
+				vs_sleep(1);
+		}
+		if (fd < 0)
+			vs_fail("harness:peer", "the dialer never connected");
+	}
+	fcntl(fd, F_SETFL, fcntl(fd, F_GETFL) | O_NONBLOCK);
+	vs_settle();
+	int half = vs_choose(VK_ENV, 3); // nothing sent / 4 bytes sent before / the rest arrives during the close
+	static const uint8_t hs[8] = { 0, 'S', 'P', 0, 0, 0x10, 0, 0 };
+	if (half)
+		(void) write(fd, hs, 4);
+	vs_settle();
+	pthread_t t;
+	vs_window(1);
+	pthread_create(&t, NULL, t_enclose, NULL);
+	if (half == 2)
+		(void) write(fd, hs + 4, 4);
+	pthread_join(t, NULL);
+	vs_settle();
+	vs_window(0);
+	if (en_rv != 0)
+		vs_fail("C10:close-result", "%s close during negotiation -> %d",
+		    en_side ? "dialer" : "listener", en_rv);
+	dead(en_side ? "nng_dialer_close" : "nng_listener_close",
+	    en_side ? nng_dialer_close(DL) : nng_listener_close(LS));
+	int before = en_events;
+	vs_sleep(50);
+	vs_settle();
+	// a connection that completed its handshake in the same instant may have become a pipe
+	// (then its events are ADD_PRE, ADD_POST in order); what may not happen is a pipe
+	// appearing on a closed endpoint later on
+	if (en_events != before)
+		vs_fail("C10:handle-alive",
+		    "%d pipe event(s) arrived more than a settle after the %s had been closed",
+		    en_events - before, en_side ? "dialer" : "listener");
+	vs_outcome("side=%d tran=%d half=%d events=%d", en_side, tran, half, en_events);
+	close(fd);
+	if (lfd >= 0)
+		close(lfd);
+	int rv = nng_socket_close(S);
+	if (rv != 0)
+		vs_fail("C10:close-result", "socket close -> %d", rv);
+	unlink(path);
+	vh_fini();
+}
+
 // ---- sets of aio operations pending at close (no threads) -------------------------
 typedef struct pa {
 	nng_aio *aio;
@@ -659,6 +805,28 @@ main(int argc, char **argv)
 			c.deadline_s         = T ? (w == W_CTXOP ? 240 : 150) : (w == W_CTXOP ? 30 : 6);
 			vx_explore(&c, NULL);
 		}
+	for (int v = 0; v < 8; v++) {
+		int tr = v & 3, side = v >> 2;
+		if (tr == 3 || (side && tr == 0))
+			continue;
+		if (vx_time_left() < 15)
+			break;
+		static const char *EN[] = { "socketfd", "ipc", "tcp" };
+		char name[64];
+		snprintf(name, sizeof(name), "epnego-%s-%s", side ? "dialer" : "listener", EN[tr]);
+		vx_cfg c;
+		memset(&c, 0, sizeof(c));
+		c.prop               = "C10";
+		c.scenario           = strdup(name);
+		c.run                = run_epnego;
+		c.arg                = (void *) (intptr_t) v;
+		c.budget[VB_PREEMPT] = T ? 2 : 1;
+		c.budget[VB_SWITCH]  = T ? 2 : 1;
+		c.budget[VB_ENV]     = -1;
+		c.total              = T ? 2 : 1;
+		c.deadline_s         = T ? 60 : 8;
+		vx_explore(&c, NULL);
+	}
 	// the same closers with the peer connected over a stream transport (pipes with real
 	// descriptors, pollers, negotiation and transport-level queues in the teardown)
 	{
